@@ -41,6 +41,55 @@ func LoadTokens(path string) (Tokens, error) {
 	return t, nil
 }
 
+// WithPads resolves the tokens "@PAD:<mod>:<rem>": the token's value becomes a run of 'p' bytes whose length makes the
+// encoding of all frames exactly <rem> bytes longer than a multiple of <mod>.  Returns t itself when fs uses no such token.
+func (t Tokens) WithPads(fs []AbsFrame) (Tokens, error) {
+	var name string
+	mod, rem := 0, 0
+	for _, f := range fs {
+		for _, a := range f.A {
+			if v := t[a]; strings.HasPrefix(v, "@PAD:") {
+				p := strings.Split(v[5:], ":")
+				if len(p) != 2 {
+					return nil, fmt.Errorf("bad token %q", v)
+				}
+				m, e1 := strconv.Atoi(p[0])
+				r, e2 := strconv.Atoi(p[1])
+				if e1 != nil || e2 != nil || m <= 0 || (name != "" && name != a) {
+					return nil, fmt.Errorf("bad pad token %q (one per stream)", v)
+				}
+				name, mod, rem = a, m, r
+			}
+		}
+	}
+	if name == "" {
+		return t, nil
+	}
+	t2 := Tokens{}
+	for k, v := range t {
+		t2[k] = v
+	}
+	n := 2000
+	for iter := 0; iter < 6; iter++ {
+		t2[name] = strings.Repeat("p", n)
+		enc, _, err := t2.EncodeAll(fs)
+		if err != nil {
+			return nil, err
+		}
+		d := ((rem-len(enc))%mod + mod) % mod
+		if d == 0 {
+			return t2, nil
+		}
+		// a longer pad may need one more length digit: iterate, moving by the smaller of the two ways round
+		if d > mod/2 && n-(mod-d) >= 1 {
+			n -= mod - d
+		} else {
+			n += d
+		}
+	}
+	return nil, fmt.Errorf("cannot pad the stream to %d mod %d", rem, mod)
+}
+
 // AbsFrame is a frame of the specification: syntax and argument tokens.
 type AbsFrame struct {
 	K string   `json:"k"`
